@@ -18,6 +18,9 @@ Model A = Flatland/Path.lean (`fqName`, `find`), spec B = Flatland/Spec/C13.lean
 * `C13_Full` / `C13_full_fails`  the unrestricted law is false of the code as it is: a Dict field
                    named `""` (KF-C13-b); `C13_full_fails_backslash`: a Dict named `y\` with a
                    child (KF-C13-a: nothing below a name ending in a backslash can be addressed);
+* `C13_full_fails_key`  an element stored under a key different from its name (KF-C13-c): `find`
+                   looks up keys, `fq_name` prints names; `key = name` is therefore the explicit
+                   hypothesis [KeyIsName] of `addressable`, not part of `TreeInv`;
 * `C13_backslash_dot_ok`  a field named `a\.b` — the part of KF-C13-a fixed by b49b3eb — now
                    satisfies the law.
 -/
@@ -38,14 +41,14 @@ def segText (k : Kind) (i : Nat) (c : Node) : Str :=
 
 def segs : Node → Pos → List Str
   | _, [] => []
-  | .mk k _ kids, i :: p =>
+  | .mk k _ _ kids, i :: p =>
     match kids[i]? with
     | none => []
     | some c => segText k i c :: segs c p
 
 theorem fqParts_chain : ∀ (n : Node) (pos : Pos), fqParts none (chain n pos) = segs n pos
   | _, [] => by simp [chain, fqParts, segs]
-  | .mk k nm kids, i :: p => by
+  | .mk k ky nm kids, i :: p => by
     simp only [chain, segs]
     cases hk : kids[i]? with
     | none => simp [fqParts]
@@ -82,7 +85,7 @@ def stepOK (k : Kind) (kids : List Node) (i : Nat) (c : Node) (lastStep : Bool) 
 
 def PathOK : Node → Pos → Bool
   | _, [] => true
-  | .mk k _ kids, i :: p =>
+  | .mk k _ _ kids, i :: p =>
     match kids[i]? with
     | none => false
     | some c => stepOK k kids i c p.isEmpty && PathOK c p
@@ -109,7 +112,7 @@ theorem segs_nil_iff (n : Node) (pos : Pos) (h : PathOK n pos = true) : segs n p
   cases pos with
   | nil => simp [segs]
   | cons i p =>
-    cases n with | mk k nm kids =>
+    cases n with | mk k ky nm kids =>
     simp only [PathOK] at h
     simp only [segs]
     cases hk : kids[i]? with
@@ -119,7 +122,7 @@ theorem segs_nil_iff (n : Node) (pos : Pos) (h : PathOK n pos = true) : segs n p
 theorem segs_ok : ∀ (pos : Pos) (n : Node), PathOK n pos = true → pos ≠ [] →
     SegsOK (segs n pos) ∧ ∀ x ∈ segs n pos, PlainSeg x
   | [], _, _, h => absurd rfl h
-  | i :: p, .mk k nm kids, hok, _ => by
+  | i :: p, .mk k ky nm kids, hok, _ => by
     simp only [PathOK] at hok
     simp only [segs]
     cases hk : kids[i]? with
@@ -158,10 +161,10 @@ theorem get?_append_single : ∀ (el : Pos) (root n : Node) (i : Nat), root.get?
   | [], root, n, i, h => by
     simp only [Node.get?, Option.some.injEq] at h
     subst h
-    cases root with | mk k nm kids =>
+    cases root with | mk k ky nm kids =>
     simp only [List.nil_append, Node.get?, Node.kids]
     cases kids[i]? <;> simp [Node.get?]
-  | j :: el, .mk k nm kids, n, i, h => by
+  | j :: el, .mk k ky nm kids, n, i, h => by
     simp only [List.cons_append, Node.get?] at h ⊢
     cases hk : kids[j]? with
     | none => rw [hk] at h; simp at h
@@ -187,9 +190,9 @@ theorem unescape_segText (k : Kind) (kids : List Node) (i : Nat) (c : Node) (las
     exact this.2.2.2
 
 /-- the name `fq_name` emits for a step looks up exactly that child -/
-theorem index_segText (k : Kind) (nm : Str) (kids : List Node) (i : Nat) (c : Node) (lastStep : Bool)
+theorem index_segText (k : Kind) (ky nm : Str) (kids : List Node) (i : Nat) (c : Node) (lastStep : Bool)
     (hk : kids[i]? = some c) (h : stepOK k kids i c lastStep = true) :
-    (Node.mk k nm kids).index (some (unescape (segText k i c))) = some i := by
+    (Node.mk k ky nm kids).index (some (unescape (segText k i c))) = some i := by
   rw [unescape_segText k kids i c lastStep h]
   have hi : i < kids.length := by
     rcases Nat.lt_or_ge i kids.length with h | h
@@ -212,7 +215,7 @@ theorem runCtx_segs (root : Node) (strict : Bool) : ∀ (pos : Pos) (n : Node) (
     runCtx root strict ((segs n pos).map (fun s => Op.name (some (unescape s)))) el
       = .ok (.found (el ++ pos))
   | [], n, el, _, _ => by simp [segs, runCtx]
-  | i :: p, .mk k nm kids, el, hok, hg => by
+  | i :: p, .mk k ky nm kids, el, hok, hg => by
     simp only [PathOK] at hok
     simp only [segs]
     cases hk : kids[i]? with
@@ -221,7 +224,7 @@ theorem runCtx_segs (root : Node) (strict : Bool) : ∀ (pos : Pos) (n : Node) (
       rw [hk] at hok
       simp only [Bool.and_eq_true] at hok
       obtain ⟨hstep, hrest⟩ := hok
-      simp only [List.map_cons, runCtx, indexAt, hg, index_segText k nm kids i c p.isEmpty hk hstep]
+      simp only [List.map_cons, runCtx, indexAt, hg, index_segText k ky nm kids i c p.isEmpty hk hstep]
       have hg' : root.get? (el ++ [i]) = some c := by
         rw [get?_append_single el root _ i hg]
         simp [Node.kids, hk]
@@ -322,25 +325,27 @@ theorem C13_partial (root : Node)
   simp
 
 /-- non-vacuity: Dict{"a/b": List[String, String], "..": String}; every position is PathOK -/
-example : PathOK (.mk .map [] [.mk .list ['a', '/', 'b'] [.mk .scalar [] [], .mk .scalar [] []],
-      .mk .scalar ['.', '.'] []]) [0, 1] = true := by
-  simp [PathOK, stepOK, findName, Node.name, endsWithBackslash, intMaxDigits, natStr]
+example : PathOK (.mk .map [] [] [.mk .list ['a', '/', 'b'] ['a', '/', 'b'] [.mk .scalar [] [] [], .mk .scalar [] [] []],
+      .mk .scalar ['.', '.'] ['.', '.'] []]) [0, 1] = true := by
+  simp [PathOK, stepOK, findName, Node.name, Node.key, endsWithBackslash, intMaxDigits, natStr]
 
 /-! ### from spec B's `addressable` and the library's tree invariants -/
 
-/-- what the library guarantees of every element tree: scalars have no children, a Dict's keys
-    address their own child (unique names), sequence indexes fit `int()`'s digit limit -/
+/-- what the library guarantees of every element tree: scalars have no children, a mapping's
+    keys address their own child (dict keys are unique), sequence indexes fit `int()`'s digit
+    limit.  That a child's key equals its *name* is NOT among them (KF-C13-c); it is the
+    explicit hypothesis [KeyIsName] inside spec B's `addressable`. -/
 def TreeInv (root : Node) : Prop :=
-  ∀ (p : Pos) (k : Kind) (nm : Str) (kids : List Node), root.get? p = some (.mk k nm kids) →
+  ∀ (p : Pos) (k : Kind) (ky nm : Str) (kids : List Node), root.get? p = some (.mk k ky nm kids) →
     (k = .scalar → kids = []) ∧
-    (k = .map → ∀ i c, kids[i]? = some c → findName c.name kids = some i) ∧
+    (k = .map → ∀ i c, kids[i]? = some c → findName c.key kids = some i) ∧
     ((k = .list ∨ k = .array) → ∀ i, i < kids.length →
       ((natStr i).length ≤ intMaxDigits ∨ intMaxDigits = 0))
 
 theorem pathOK_of_addressableFrom (root : Node) (hinv : TreeInv root) : ∀ (pos : Pos) (n : Node) (el : Pos),
     root.get? el = some n → addressableFrom n pos = true → PathOK n pos = true
   | [], _, _, _, _ => rfl
-  | i :: p, .mk k nm kids, el, hg, ha => by
+  | i :: p, .mk k ky nm kids, el, hg, ha => by
     simp only [addressableFrom] at ha
     simp only [PathOK]
     cases hk : kids[i]? with
@@ -349,7 +354,7 @@ theorem pathOK_of_addressableFrom (root : Node) (hinv : TreeInv root) : ∀ (pos
       rw [hk] at ha
       simp only [Bool.and_eq_true] at ha ⊢
       obtain ⟨hname, hrest⟩ := ha
-      obtain ⟨h1, h2, h3⟩ := hinv el k nm kids hg
+      obtain ⟨h1, h2, h3⟩ := hinv el k ky nm kids hg
       have hi : i < kids.length := by
         rcases Nat.lt_or_ge i kids.length with h | h
         · exact h
@@ -363,9 +368,10 @@ theorem pathOK_of_addressableFrom (root : Node) (hinv : TreeInv root) : ∀ (pos
       | list => simp only [stepOK, decide_eq_true_eq]; exact h3 (Or.inl rfl) i hi
       | array => simp only [stepOK, decide_eq_true_eq]; exact h3 (Or.inr rfl) i hi
       | map =>
-        simp only [bne_self_eq_false, Bool.false_or, Bool.and_eq_true] at hname
+        simp only [bne_self_eq_false, Bool.false_or, Bool.and_eq_true, beq_iff_eq] at hname
         simp only [stepOK, Bool.and_eq_true, beq_iff_eq]
-        exact ⟨⟨h2 rfl i c hk, hname.1⟩, hname.2⟩
+        have hkey : c.key = c.name := hname.1.1
+        exact ⟨⟨hkey ▸ h2 rfl i c hk, hname.1.2⟩, hname.2⟩
 
 /-- **spec B's restriction suffices**: on a tree with the library's invariants every
     `addressable` element is found, alone, by its `fq_name()` from every start -/
@@ -380,22 +386,22 @@ theorem find_fq_addressable (root : Node) (hinv : TreeInv root) (start pos : Pos
 def C13_Full : Prop := ∀ root : Node, TreeInv root → Inverse root
 
 /-- Dict{"": String} -/
-def witnessEmpty : Node := .mk .map ['r'] [.mk .scalar [] []]
+def witnessEmpty : Node := .mk .map ['r'] ['r'] [.mk .scalar [] [] []]
 
 theorem witnessEmpty_inv : TreeInv witnessEmpty := by
-  intro p k nm kids h
+  intro p k ky nm kids h
   match p, h with
   | [], h =>
     simp only [witnessEmpty, Node.get?, Option.some.injEq, Node.mk.injEq] at h
-    obtain ⟨rfl, rfl, rfl⟩ := h
+    obtain ⟨rfl, rfl, rfl, rfl⟩ := h
     refine ⟨by simp, ?_, by simp⟩
     intro _ i c hc
     match i, hc with
-    | 0, hc => simp at hc; subst hc; simp [findName, Node.name]
+    | 0, hc => simp at hc; subst hc; simp [findName, Node.key]
     | i + 1, hc => simp at hc
   | [0], h =>
     simp only [witnessEmpty, Node.get?, List.getElem?_cons_zero, Option.some.injEq, Node.mk.injEq] at h
-    obtain ⟨rfl, rfl, rfl⟩ := h
+    obtain ⟨rfl, rfl, rfl, rfl⟩ := h
     exact ⟨by simp, by simp, by simp⟩
   | 0 :: j :: q, h => simp [witnessEmpty, Node.get?] at h
   | (i + 1) :: q, h => simp [witnessEmpty, Node.get?] at h
@@ -410,7 +416,7 @@ theorem C13_full_fails : ¬ C13_Full := by
   simp at hinv
 
 /-- Dict{"a\\.b": String} -/
-def witnessBackslash : Node := .mk .map ['r'] [.mk .scalar ['a', '\\', '.', 'b'] []]
+def witnessBackslash : Node := .mk .map ['r'] ['r'] [.mk .scalar ['a', '\\', '.', 'b'] ['a', '\\', '.', 'b'] []]
 
 /-- the half of KF-C13-a fixed by b49b3eb: a field named `a\.b` is found by its `fq_name()`
     (`/a\\.b`) -/
@@ -419,35 +425,35 @@ theorem C13_backslash_dot_ok : Inverse witnessBackslash := by
   intro pos hp
   match pos, hp with
   | [], _ => rfl
-  | [0], _ => simp [witnessBackslash, PathOK, stepOK, findName, Node.name, endsWithBackslash]
+  | [0], _ => simp [witnessBackslash, PathOK, stepOK, findName, Node.name, Node.key, endsWithBackslash]
   | 0 :: j :: q, hp => simp [witnessBackslash, Node.get?] at hp
   | (i + 1) :: q, hp => simp [witnessBackslash, Node.get?] at hp
 
 /-- Dict{"y\\": Dict{"z": String}} -/
-def witnessTrailing : Node := .mk .map ['r'] [.mk .map ['y', '\\'] [.mk .scalar ['z'] []]]
+def witnessTrailing : Node := .mk .map ['r'] ['r'] [.mk .map ['y', '\\'] ['y', '\\'] [.mk .scalar ['z'] ['z'] []]]
 
 theorem witnessTrailing_inv : TreeInv witnessTrailing := by
-  intro p k nm kids h
+  intro p k ky nm kids h
   match p, h with
   | [], h =>
     simp only [witnessTrailing, Node.get?, Option.some.injEq, Node.mk.injEq] at h
-    obtain ⟨rfl, rfl, rfl⟩ := h
+    obtain ⟨rfl, rfl, rfl, rfl⟩ := h
     refine ⟨by simp, ?_, by simp⟩
     intro _ i c hc
     match i, hc with
-    | 0, hc => simp at hc; subst hc; simp [findName, Node.name]
+    | 0, hc => simp at hc; subst hc; simp [findName, Node.key]
     | i + 1, hc => simp at hc
   | [0], h =>
     simp only [witnessTrailing, Node.get?, List.getElem?_cons_zero, Option.some.injEq, Node.mk.injEq] at h
-    obtain ⟨rfl, rfl, rfl⟩ := h
+    obtain ⟨rfl, rfl, rfl, rfl⟩ := h
     refine ⟨by simp, ?_, by simp⟩
     intro _ i c hc
     match i, hc with
-    | 0, hc => simp at hc; subst hc; simp [findName, Node.name]
+    | 0, hc => simp at hc; subst hc; simp [findName, Node.key]
     | i + 1, hc => simp at hc
   | [0, 0], h =>
     simp only [witnessTrailing, Node.get?, List.getElem?_cons_zero, Option.some.injEq, Node.mk.injEq] at h
-    obtain ⟨rfl, rfl, rfl⟩ := h
+    obtain ⟨rfl, rfl, rfl, rfl⟩ := h
     exact ⟨by simp, by simp, by simp⟩
   | 0 :: 0 :: j :: q, h => simp [witnessTrailing, Node.get?] at h
   | 0 :: (j + 1) :: q, h => simp [witnessTrailing, Node.get?] at h
@@ -472,6 +478,53 @@ theorem C13_full_fails_backslash : ¬ Inverse witnessTrailing := by
   simp only [List.map_cons, List.map_nil, hun] at hinv
   have hz : Flatland.C14.Proofs.NoZero [Op.top, Op.name (some ['y', '/', 'z'])] = true := by decide
   have hw := Flatland.C14.Proofs.work_level witnessTrailing true _ _ (Nat.le_refl _) hz [[]]
+  simp only [List.map_cons, List.map_nil] at hw
+  unfold evalOps at hinv
+  rw [hw] at hinv
+  revert hinv
+  decide
+
+/-- SparseDict{key "x" ↦ an element *named* "y"} (what `sd['x'] = X.named('y')(v)` leaves) -/
+def witnessKey : Node := .mk .map ['r'] ['r'] [.mk .scalar ['x'] ['y'] []]
+
+theorem witnessKey_inv : TreeInv witnessKey := by
+  intro p k ky nm kids h
+  match p, h with
+  | [], h =>
+    simp only [witnessKey, Node.get?, Option.some.injEq, Node.mk.injEq] at h
+    obtain ⟨rfl, rfl, rfl, rfl⟩ := h
+    refine ⟨by simp, ?_, by simp⟩
+    intro _ i c hc
+    match i, hc with
+    | 0, hc => simp at hc; subst hc; simp [findName, Node.key]
+    | i + 1, hc => simp at hc
+  | [0], h =>
+    simp only [witnessKey, Node.get?, List.getElem?_cons_zero, Option.some.injEq, Node.mk.injEq] at h
+    obtain ⟨rfl, rfl, rfl, rfl⟩ := h
+    exact ⟨by simp, by simp, by simp⟩
+  | 0 :: j :: q, h => simp [witnessKey, Node.get?] at h
+  | (i + 1) :: q, h => simp [witnessKey, Node.get?] at h
+
+/-- KF-C13-c: an element stored under the key `x` but named `y` has `fq_name()` `/y`; `find`
+    looks `y` up among the keys and, strictly, raises LookupError.  The tree satisfies every
+    library invariant (`witnessKey_inv`), so this refutes `C13_Full` as well. -/
+theorem C13_full_fails_key : ¬ Inverse witnessKey := by
+  intro h
+  have hinv := h.2 [] [0] rfl rfl
+  unfold isInverseAt at hinv
+  have hfq : fqName witnessKey [0] = slashJoin [['y']] := by decide
+  have hclean : cleanB true ['y'] = true := by
+    simp [cleanB_cons, cleanB_nil']
+  have hplain : PlainSeg ['y'] := ⟨by decide, by decide, by decide, by decide⟩
+  have htok := tokenize_segs ['y'] [] ⟨by simp, hclean⟩
+    (by intro x hx; simp at hx; subst hx; exact hplain)
+  have hun : unescape ['y'] = ['y'] := by
+    simp [unescape_cons, unescape_nil']
+  unfold find at hinv
+  rw [hfq, htok] at hinv
+  simp only [List.map_cons, List.map_nil, hun] at hinv
+  have hz : Flatland.C14.Proofs.NoZero [Op.top, Op.name (some ['y'])] = true := by decide
+  have hw := Flatland.C14.Proofs.work_level witnessKey true _ _ (Nat.le_refl _) hz [[]]
   simp only [List.map_cons, List.map_nil] at hw
   unfold evalOps at hinv
   rw [hw] at hinv
